@@ -12,11 +12,11 @@ import (
 )
 
 type crashCfg struct {
-	profile   string
-	quickWl   int
+	profile    string
+	quickWl    int
 	thoroughWl int
-	rule      string
-	distinct  string
+	rule       string
+	distinct   string
 }
 
 func init() {
@@ -94,7 +94,7 @@ func replayCrash(c *evid.Ctx, p crashsim.Params) {
 	}
 	var rf struct {
 		Case struct {
-			Workload *crashsim.Workload `json:"workload"`
+			Workload *crashsim.Workload              `json:"workload"`
 			Crash1   *struct{ Call, Variant string } `json:"crash1"`
 			Crash2   *struct{ Call, Variant string } `json:"crash2"`
 		} `json:"case"`
